@@ -15,8 +15,9 @@ RULE = ('operator x (value, unit) x operand x form {Quantity-op-number, number-o
         '+-1, 2, 3, 7, -5, 0.5, -1.5, 1e308, 5e-324, +-2**64, inf, -inf, nan, True) plus Hypothesis ints/floats. '
         'Non-trivial = an operand is zero/non-finite/bool, or the raw outcome is an exception, or the form is reflected '
         'or Quantity-Quantity; distinct by (op, form, operands, units).')
-ASSUMPTIONS = ['operands are ints, floats and bools as the property says; Fraction/Decimal/complex operands are not used: how '
-               'those types dispatch to a foreign operand is their own business (Fraction ** Quantity takes its float path)',
+ASSUMPTIONS = ['operands are ints, floats and bools as the property says; Fraction/Decimal/complex operands are used for the six '
+               'comparisons only: how those types dispatch *arithmetic* to a foreign operand is their own business '
+               '(Fraction ** Quantity takes its float path)',
                'shift counts and integer exponents are bounded (|x| <= 512) so results stay representable',
                'reflected three-argument pow is not generated (Python never dispatches it)',
                'pint mode is off (hszinc.use_pint not exercised)']
@@ -158,6 +159,18 @@ def enumerate_cases(shard, of):
                             i += 1
                             if i % of == shard:
                                 yield {'kind': kind, 'op': op, 'form': 'qq', 'v': enc(v), 'u': u, 'x': enc(x), 'u2': u2}
+                if u == 'm' and x is CAT[0]:
+                    # "plain numbers" of other types, comparisons only (how Fraction/Decimal dispatch *arithmetic* with a
+                    # foreign operand is their own business, see ASSUMPTIONS)
+                    import fractions
+                    import decimal
+                    for y in (fractions.Fraction(1, 2), fractions.Fraction(-7, 3), fractions.Fraction(0), decimal.Decimal('1.5'),
+                              decimal.Decimal('0'), decimal.Decimal('NaN'), complex(1, 0), complex(0, 2)):
+                        for op in CMPOPS:
+                            for form in ('qn', 'nq'):
+                                i += 1
+                                if i % of == shard:
+                                    yield {'kind': 'cmp', 'op': op, 'form': form, 'v': enc(v), 'u': u, 'x': enc(y)}
                 if u == 'm' and safe('pow', v, x):
                     for m in (1, 2, 7, -3, 0, 2.0):
                         i += 1
